@@ -216,7 +216,7 @@ m("C11-scalar-format", "C11", "tensor.py",
 # ---------------------------------------------------------------- C12
 m("C12-right-fold", "C12", "expression/_parser.py", "                value = Add(value, term)", "                value = Add(term, value)", "C12.grammar")
 m("C12-add-deparse-wrap", "C12", "expression/ast.py",
-  "        if isinstance(self.right, (Add, Subtract)):\n            # Preserve AST even though addition is associative.", "        if isinstance(self.right, Add):\n            # Preserve AST even though addition is associative.", "C12.printer-parser")
+  "        if isinstance(self.right, (Add, Subtract)):\n            # Preserve AST even though addition is associative.", "        if isinstance(self.right, Add):\n            # Preserve AST even though addition is associative.", "C12.roundtrip-semantics")
 m("C12-swapped-constructors", "C12", "expression/_parser.py",
   "            case \"+\":\n                value = Add(value, term)\n            case \"-\":\n                value = Subtract(value, term)",
   "            case \"+\":\n                value = Subtract(value, term)\n            case \"-\":\n                value = Add(value, term)", "C12.grammar")
@@ -232,7 +232,7 @@ m("C12-term-level", "C12", "expression/_parser.py",
   "    term = rep1sep(factor, \"*\") > (lambda x: reduce(Multiply, x))\n    expression = term & rep(lit(\"+\", \"-\") & term) > splat(make_expression)",
   "    term = rep1sep(factor, \"+\") > (lambda x: reduce(Add, x))\n    expression = term & rep(lit(\"*\", \"-\") & term) > splat(make_expression)", "C12.grammar")
 m("C12-format-digit", "C12", "format/_format.py",
-  "                mode.character + str(ordering)", "                str(ordering) + mode.character", "C12.format-printer-parser")
+  "                mode.character + str(ordering)", "                str(ordering) + mode.character", "C12.roundtrip-semantics")
 # ---------------------------------------------------------------- C13
 m("C13-no-take-ownership", "C13", "compile/_tensor_method.py", "        take_ownership_of_arrays(cffi_output)\n\n", "", "C13.hand-over")
 m("C13-take-after-raise", "C13", "compile/_tensor_method.py",
